@@ -42,7 +42,7 @@ theorem fundNoChange_eq (a : FundArgs) (est : Bool → Except PyErr Int) (v owed
 
 /-- inversion of `fund` -/
 theorem fund_ok (a : FundArgs) (est : Bool → Except PyErr Int) (r : Funded) (h : fund a est = .ok r) :
-    a.totalOut ≤ Gen.Fee.MAX_SATOSHI ∧
+    a.nIn ≠ 0 ∧ a.totalOut ≤ Gen.Fee.MAX_SATOSHI ∧
     ((fundNoChange a est = .ok r ∧
         (a.change = none ∨ ∃ script v fee dust, a.change = some script ∧ est true = .ok v ∧
           Gen.Fee.fee_from_vsize v a.rate = .ok fee ∧ dustThreshold script a.dustRate = .ok dust ∧
@@ -52,10 +52,13 @@ theorem fund_ok (a : FundArgs) (est : Bool → Except PyErr Int) (r : Funded) (h
         a.totalIn - a.totalOut - fee ≥ dust ∧ a.totalOut + (a.totalIn - a.totalOut - fee) ≤ Gen.Fee.MAX_SATOSHI ∧
         r = ⟨fee, some (a.totalIn - a.totalOut - fee)⟩)) := by
   unfold fund at h
+  by_cases hi : a.nIn = 0
+  · simp [hi] at h; cases h
+  simp only [hi, if_false] at h
   by_cases hm : a.totalOut > Gen.Fee.MAX_SATOSHI
   · simp [hm] at h; cases h
   · simp only [hm, if_false] at h
-    refine ⟨by omega, ?_⟩
+    refine ⟨hi, by omega, ?_⟩
     cases hch : a.change with
     | none =>
       simp only [hch] at h
@@ -84,7 +87,7 @@ theorem fund_ok (a : FundArgs) (est : Bool → Except PyErr Int) (r : Funded) (h
 
 /-- `fund` on the change branch when estimator, fee and dust threshold answer -/
 theorem fund_eq_change (a : FundArgs) (est : Bool → Except PyErr Int) (script : Bytes) (v fee dust : Int)
-    (hm : a.totalOut ≤ Gen.Fee.MAX_SATOSHI) (hch : a.change = some script) (he : est true = .ok v)
+    (hi : a.nIn ≠ 0) (hm : a.totalOut ≤ Gen.Fee.MAX_SATOSHI) (hch : a.change = some script) (he : est true = .ok v)
     (hf : Gen.Fee.fee_from_vsize v a.rate = .ok fee) (hd : dustThreshold script a.dustRate = .ok dust) :
     fund a est =
       if a.totalIn - a.totalOut - fee ≥ dust then
@@ -93,7 +96,7 @@ theorem fund_eq_change (a : FundArgs) (est : Bool → Except PyErr Int) (script 
       else fundNoChange a est := by
   unfold fund
   have hm' : ¬ a.totalOut > Gen.Fee.MAX_SATOSHI := by omega
-  simp only [hm', if_false, hch, he, hf, hd, bind, Except.bind]
+  simp only [hi, hm', if_false, hch, he, hf, hd, bind, Except.bind]
   by_cases hc : a.totalIn - a.totalOut - fee ≥ dust
   · simp only [hc, if_true]
     by_cases hx : a.totalIn - fee > Gen.Fee.MAX_SATOSHI
@@ -104,10 +107,14 @@ theorem fund_eq_change (a : FundArgs) (est : Bool → Except PyErr Int) (script 
   · simp only [hc, if_false]
 
 theorem fund_eq_nochange (a : FundArgs) (est : Bool → Except PyErr Int)
-    (hm : a.totalOut ≤ Gen.Fee.MAX_SATOSHI) (hch : a.change = none) :
+    (hi : a.nIn ≠ 0) (hm : a.totalOut ≤ Gen.Fee.MAX_SATOSHI) (hch : a.change = none) :
     fund a est = fundNoChange a est := by
   unfold fund
   have hm' : ¬ a.totalOut > Gen.Fee.MAX_SATOSHI := by omega
-  simp only [hm', if_false, hch]
+  simp only [hi, hm', if_false, hch]
+
+theorem fund_no_inputs (a : FundArgs) (est : Bool → Except PyErr Int) (hi : a.nIn = 0) :
+    fund a est = .error .value := by
+  unfold fund; simp [hi]; rfl
 
 end Btc.C18
